@@ -15,7 +15,7 @@ CHECKS = {
             "DESIGN.md §5 C01"),
     "C02": ("busmc", "model_checking",
             "explicit-state BFS over protocol events with the real Broker/Connection tasks as transition function, lock-step reference model (refbus) and observation monitors",
-            "All sequences of call (CallFunction / CallFunction2, serials {0,1}), abort, reply (every result, live / stale / bogus callee serial, from owner and from non-owners), destroy-service, destroy-object, re-creation and the three observable ways of disconnecting any of the 4 connections, for several version assignments, explored breadth-first to the fixpoint of the canonical state space (call entries bounded to 3). Every transition is executed on the real broker and compared with refbus: each connection's outputs (as a bag per step, payloads by value across epochs) and the complete internal snapshot; an independent monitor requires that every CallFunctionReply a connection receives answers a call it made and that it gets at most one.",
+            "All sequences of call (CallFunction / CallFunction2, serials {0,1}), abort, reply (every result, live / stale / bogus callee serial, from owner and from non-owners), destroy-service, destroy-object, re-creation and the three observable ways of disconnecting any of the 4 connections, for several version assignments, explored breadth-first to the fixpoint of the canonical state space (call entries bounded to 3, thorough 4, with a third caller serial), one scenario also with connection tasks being dropped (the broker notices on its next send, e.g. when forwarding an abort). Every transition is executed on the real broker and compared with refbus: each connection's outputs (as a bag per step, payloads by value across epochs) and the complete internal snapshot; an independent monitor requires that every CallFunctionReply a connection receives answers a call it made and that it gets at most one.",
             "hash iteration order inside the broker is sampled, not enumerated (DESIGN 3.5b); state merging by cookie/serial renaming (3.4); SerialMap wrap-around out of reach",
             "DESIGN.md §5 C02"),
     "C03": ("busmc", "model_checking",
@@ -55,7 +55,7 @@ CHECKS = {
             "DESIGN.md §5 C10"),
     "C06": ("taskmc", "exploration",
             "stateless deviation-bounded exploration of task schedules (prefix-replay DFS under a deterministic executor) on real Client, Connection and Broker tasks",
-            "A catalogue of program templates written against the public client API (registry and proxies; 1-2 callers x 1-2 overlapping calls with abort by drop and service destruction mid-call; events with two proxies on one client plus one on another, subscribe / subscribe-all / unsubscribe / drop; channels with capacity in {1,4,5,...}, n items, consumer reads m then closes or drops, both ends on one or two clients, close-before-claim, double claim, cancelled claim, cancelled-and-rejected claim, producer polling receiver_closed in stream and ping-pong style; event bursts against a slow subscriber that drops / unsubscribes a proxy with several subscriptions (back-pressure on small bounded transports); bus listeners; explicit shutdowns in every order), instantiated over unbounded / bounded(1) (thorough also bounded(2), bounded(16)) transports and client versions 1.14 (connect1), 1.16..1.20 (version-rewriting shim): about 260 instances (quick). For each instance all schedules - which ready task of broker, connections, clients and application tasks is polled next - with at most 2 (thorough 3-4) deviations from the canonical schedule. Oracles: no task panics; every Client::run and Connection::run returns Ok (never UnexpectedMessageReceived); every application task finishes (else lost wake-up / deadlock); program assertions (a call returns the value computed from its own arguments, items arrive exactly once in order, events arrive at the proxies subscribed at emit time); after all clients are gone shutdown_idle stops the broker.",
+            "A catalogue of program templates written against the public client API (registry and proxies; 1-2 callers x 1-2 overlapping calls with abort by drop and service destruction mid-call; events with two proxies on one client plus one on another, subscribe / subscribe-all / unsubscribe / drop; channels with capacity in {1,4,5,...}, n items, consumer reads m then closes or drops, both ends on one or two clients, close-before-claim, double claim, cancelled claim, cancelled-and-rejected claim, producer polling receiver_closed in stream and ping-pong style; event bursts against a slow subscriber that drops / unsubscribes a proxy with several subscriptions (back-pressure on small bounded transports); sibling proxies of one service on one client sharing a subscription, one of them letting go; bus listeners incl. a life-cycle program (current-only scopes finish after exactly the matching entities, stop / restart, filters taken back, new-only and all scopes, nothing after stop); explicit shutdowns in every order), instantiated over unbounded / bounded(1) (thorough also bounded(2), bounded(16)) transports and client versions 1.14 (connect1), 1.16..1.20 (version-rewriting shim): about 260 instances (quick). For each instance all schedules - which ready task of broker, connections, clients and application tasks is polled next - with at most 2 (thorough 3-4) deviations from the canonical schedule. Oracles: no task panics; every Client::run and Connection::run returns Ok (never UnexpectedMessageReceived); every application task finishes (else lost wake-up / deadlock); program assertions (a call returns the value computed from its own arguments, items arrive exactly once in order, events arrive at the proxies subscribed at emit time); after all clients are gone shutdown_idle stops the broker.",
             "programs outside the catalogue and schedules needing more deviations are not covered; parallelism is covered through the interleaving argument (tasks share no memory)",
             "DESIGN.md §5 C06"),
     "C15": ("taskmc", "fault_enumeration",
@@ -80,7 +80,7 @@ CHECKS = {
             "DESIGN.md §5 C20"),
     "C17": ("schemamc", "exploration",
             "bounded-exhaustive enumeration of source texts (token strings, complete single-edit families of the repository's schemas, doc-comment / doc-link / markdown strings, identifier and cross-schema type-graph families) through the real parser, renderer, formatter and generator under catch_unwind, a watchdog and an abort handler",
-            "All token strings of length <= 2 (thorough 3) over the grammar's 82-token terminal-plus-junk alphabet and <= 3 (5) over a 24-token sub-alphabet, with three joiners; for each of the 83 .aldrin files the complete token-level edit family (delete, duplicate, swap, replace by each alphabet token, truncate after each token) and the character-level edit family inside docs (thorough: comments and strings too); all doc strings of <= 3 (4) fragments over 22 markdown fragments at six kinds of documentable position in LF and CR-LF, split over one or two lines; every doc-link path of <= 2 (3) components over 24 names in five link forms under every import environment; inline-content strings inside 17 markdown block contexts (tables with escaped pipes, quotes, lists, footnotes); 49 identifiers at 31 naming positions; two-definition type graphs over local / imported / recursive imported types under eight wrappers; the valid-schema catalogue of C18 with every prelude slot filled. Seven import environments (nothing, resolvable, transitively missing, cycle, unreadable, broken, recursive types) and unreadable / oddly named main schemas. Per input: parse, render every error and warning with four renderers, format, generate (exactly when there are no errors), all under catch_unwind; a second run must give the same diagnostics (multiset when several schemas are involved) and the same formatted text; an input running longer than 20 s or aborting the process (stack overflow) is a violation with its own replay file.",
+            "All token strings of length <= 2 (thorough 3) over the grammar's 82-token terminal-plus-junk alphabet and <= 3 (5) over a 24-token sub-alphabet, with three joiners; for each of the 83 .aldrin files the complete token-level edit family (delete, duplicate, swap, replace by each alphabet token, truncate after each token) and the character-level edit family inside docs (thorough: comments and strings too); all doc strings of <= 3 (4) fragments over 22 markdown fragments at six kinds of documentable position in LF and CR-LF, split over one or two lines; every doc-link path of <= 2 (3) components over 24 names in five link forms under every import environment; inline-content strings inside 17 markdown block contexts (tables with escaped pipes, quotes, lists, footnotes); 49 identifiers at 31 naming positions; two-definition type graphs over local / imported / recursive imported types under eight wrappers; three-newtype graphs used as map keys / set elements (chains, cycles with and without their entry, imported and missing targets, a misspelt key type); ids, service versions, array lengths and constant values at the boundaries of their ranges, alone, in pairs and duplicated; one service uuid in several schemas, parsed twelve times per environment; the valid-schema catalogue of C18 with every prelude slot filled. Seven import environments (nothing, resolvable, transitively missing, cycle, unreadable, broken, recursive types) and unreadable / oddly named main schemas. Per input: parse, render every error and warning with four renderers, format, generate (exactly when there are no errors), all under catch_unwind; a second run must give the same diagnostics (multiset when several schemas are involved) and the same formatted text; an input running longer than 20 s or aborting the process (stack overflow) is a violation with its own replay file.",
             "inputs outside the enumerated families; panics include debug assertions and overflow checks of the harness profile; Generator errors (as opposed to panics) are not judged; the aldrin-gen CLI wrapper is not driven",
             "DESIGN.md §5 C17"),
     "C18": ("schemamc", "exploration",
